@@ -16,6 +16,7 @@ def main(pid, tier, repo=None):
         proto.rule_placeholder(ctx, infos)
         proto.rule_nolock(ctx, infos)
         proto.rule_publish_success(ctx)
+        proto.rule_pool_wait(ctx)
         from . import block
         from ..engine import LIB_CRATES
         block.run_block(ctx, LIB_CRATES)      # no blocking primitive besides the handle wait; no lock re-acquired while its guard is held
